@@ -12,9 +12,8 @@ I64MIN, I64MAX, U64MAX = -2**63, 2**63 - 1, 2**64 - 1
 I32MIN, I32MAX, U32MAX = -2**31, 2**31 - 1, 2**32 - 1
 
 # ---------------------------------------------------------------- known findings (sites/classes)
-S_CONSTS = ("Rational::zero / one / mOne (static constants)", "static library link order")
-# (six earlier findings - operator< / >, += / -= self-alias, QField::inv(r,r), Rational(0,d,0), Rational(double) negative
-#  subnormal - are repaired in /repo; their sites are judged like every other site now)
+# (seven earlier findings - operator< / >, += / -= self-alias, QField::inv(r,r), Rational(0,d,0), Rational(double) negative
+#  subnormal, Rational(int64,int64) with INT64_MIN, the static constants zero/one/mOne - are repaired in /repo; their sites are judged like every other site now)
 
 
 def merge_frag_findings():
@@ -81,6 +80,10 @@ def gen_rat(rng, red, cov):
         return (0, 1)
     if red:
         return canon(n, d)
+    if rng.chance(1, 2):      # NoReduce mode: operands with a common factor are the interesting ones
+        g = rng.choice([2, 3, 6, 10, 2**32, 2**64 + 2, abs(n), d])
+        cov["unreduced operand"] = cov.get("unreduced operand", 0) + 1
+        n, d = n * g, d * g
     return (n, d)
 
 
@@ -221,7 +224,7 @@ def build_cases(rng, tier, cov):
     for b in (0, 1):
         add("ctor.neutral", 1, [b], "mk_neutral", [b], "ratc", Fraction(b), nontrivial=False)
     add("ctor.default", 1, [], "mk_neutral", [0], "ratc", Fraction(0), nontrivial=False)
-    add("consts", 1, [], "consts", [], "raw", "0 1 1 1 -1 1 0 1 1 1 -1 1", S_CONSTS[0], S_CONSTS[1], nontrivial=False)
+    add("consts", 1, [], "consts", [], "raw", "0 1 1 1 -1 1 0 1 1 1 -1 1", nontrivial=False)
     add("q.init0", 1, [], "pos", [7, 5], "ratc", Fraction(7, 5), nontrivial=False)
     for i in range(per):
         n32 = rng.choice([0, 1, -1, I32MIN, I32MAX, rng.range(I32MIN, I32MAX)])
